@@ -2670,10 +2670,8 @@ let feed_arms =
   (((((St Ground), (Npos (XO (XO (XO (XO (XO XH))))))), (Npos (XI (XI (XI (XI
     (XI (XI XH)))))))) :: []), (ARetPrint :: [])) :: ((((((St CsiParam),
     (Npos (XO (XO (XO (XO (XI XH))))))), (Npos (XI (XI (XO (XI (XI
-    XH))))))) :: []), (AParam :: [])) :: (((((AnyState, (Npos (XI (XI (XO (XI
-    XH)))))), (Npos (XI (XI (XO (XI XH)))))) :: []), ((ASetState
-    Escape) :: (AClear :: []))) :: ((((((St Escape), (Npos (XI (XI (XO (XI
-    (XI (XO XH)))))))), (Npos (XI (XI (XO (XI (XI (XO XH)))))))) :: []),
+    XH))))))) :: []), (AParam :: [])) :: ((((((St Escape), (Npos (XI (XI (XO
+    (XI (XI (XO XH)))))))), (Npos (XI (XI (XO (XI (XI (XO XH)))))))) :: []),
     ((ASetState CsiEntry) :: (AClear :: []))) :: ((((((St CsiParam), (Npos
     (XO (XO (XO (XO (XO (XO XH)))))))), (Npos (XO (XI (XI (XI (XI (XI
     XH)))))))) :: []), ((ASetState Ground) :: (ARetCsi :: []))) :: ((((((St
@@ -2771,17 +2769,16 @@ let feed_arms =
     CsiIgnore) :: [])) :: ((((((St CsiEntry), (Npos (XO (XO (XO (XO (XO
     XH))))))), (Npos (XI (XI (XI (XI (XO XH))))))) :: []), ((ASetState
     CsiIntermediate) :: (ACollect :: []))) :: ((((((St EscapeIntermediate),
-    N0), (Npos (XI (XI (XI (XO XH)))))) :: ((((St EscapeIntermediate), (Npos
-    (XI (XO (XO (XI XH)))))), (Npos (XI (XO (XO (XI XH)))))) :: ((((St
-    EscapeIntermediate), (Npos (XO (XO (XI (XI XH)))))), (Npos (XI (XI (XI
-    (XI XH)))))) :: []))), (ARetExecute :: [])) :: ((((((St Escape), (Npos
-    (XO (XO (XO (XI (XI (XO XH)))))))), (Npos (XO (XO (XO (XI (XI (XO
-    XH)))))))) :: ((((St Escape), (Npos (XO (XI (XI (XI (XI (XO XH)))))))),
-    (Npos (XO (XI (XI (XI (XI (XO XH)))))))) :: ((((St Escape), (Npos (XI (XI
-    (XI (XI (XI (XO XH)))))))), (Npos (XI (XI (XI (XI (XI (XO
-    XH)))))))) :: []))), ((ASetState
-    SosPmApcString) :: [])) :: (((((AnyState, (Npos (XO (XO (XO (XI (XI (XO
-    (XO XH))))))))), (Npos (XO (XO (XO (XI (XI (XO (XO
+    N0), (Npos (XI (XI (XI (XI XH)))))) :: []),
+    (ARetExecute :: [])) :: ((((((St Escape), (Npos (XO (XO (XO (XI (XI (XO
+    XH)))))))), (Npos (XO (XO (XO (XI (XI (XO XH)))))))) :: ((((St Escape),
+    (Npos (XO (XI (XI (XI (XI (XO XH)))))))), (Npos (XO (XI (XI (XI (XI (XO
+    XH)))))))) :: ((((St Escape), (Npos (XI (XI (XI (XI (XI (XO XH)))))))),
+    (Npos (XI (XI (XI (XI (XI (XO XH)))))))) :: []))), ((ASetState
+    SosPmApcString) :: [])) :: (((((AnyState, (Npos (XI (XI (XO (XI XH)))))),
+    (Npos (XI (XI (XO (XI XH)))))) :: []), ((ASetState
+    Escape) :: (AClear :: []))) :: (((((AnyState, (Npos (XO (XO (XO (XI (XI
+    (XO (XO XH))))))))), (Npos (XO (XO (XO (XI (XI (XO (XO
     XH))))))))) :: (((AnyState, (Npos (XO (XI (XI (XI (XI (XO (XO
     XH))))))))), (Npos (XO (XI (XI (XI (XI (XO (XO
     XH))))))))) :: (((AnyState, (Npos (XI (XI (XI (XI (XI (XO (XO
@@ -2802,17 +2799,12 @@ let feed_arms =
     DcsParam) :: (AParam :: []))) :: ((((((St DcsIntermediate), (Npos (XO (XO
     (XO (XO (XO XH))))))), (Npos (XI (XI (XI (XI (XO XH))))))) :: []),
     (ACollect :: [])) :: ((((((St CsiIntermediate), N0), (Npos (XI (XI (XI
-    (XO XH)))))) :: ((((St CsiIntermediate), (Npos (XI (XO (XO (XI XH)))))),
-    (Npos (XI (XO (XO (XI XH)))))) :: ((((St CsiIntermediate), (Npos (XO (XO
-    (XI (XI XH)))))), (Npos (XI (XI (XI (XI XH)))))) :: []))),
-    (ARetExecute :: [])) :: ((((((St DcsEntry), (Npos (XO (XI (XO (XI (XI
-    XH))))))), (Npos (XO (XI (XO (XI (XI XH))))))) :: []), ((ASetState
-    DcsIgnore) :: [])) :: ((((((St DcsIntermediate), (Npos (XO (XO (XO (XO
-    (XI XH))))))), (Npos (XI (XI (XI (XI (XI XH))))))) :: []), ((ASetState
-    DcsIgnore) :: [])) :: ((((((St CsiIgnore), N0), (Npos (XI (XI (XI (XO
-    XH)))))) :: ((((St CsiIgnore), (Npos (XI (XO (XO (XI XH)))))), (Npos (XI
-    (XO (XO (XI XH)))))) :: ((((St CsiIgnore), (Npos (XO (XO (XI (XI
-    XH)))))), (Npos (XI (XI (XI (XI XH)))))) :: []))),
+    (XI XH)))))) :: []), (ARetExecute :: [])) :: ((((((St DcsEntry), (Npos
+    (XO (XI (XO (XI (XI XH))))))), (Npos (XO (XI (XO (XI (XI
+    XH))))))) :: []), ((ASetState DcsIgnore) :: [])) :: ((((((St
+    DcsIntermediate), (Npos (XO (XO (XO (XO (XI XH))))))), (Npos (XI (XI (XI
+    (XI (XI XH))))))) :: []), ((ASetState DcsIgnore) :: [])) :: ((((((St
+    CsiIgnore), N0), (Npos (XI (XI (XI (XI XH)))))) :: []),
     (ARetExecute :: [])) :: ((((((St DcsParam), (Npos (XO (XO (XO (XO (XO
     XH))))))), (Npos (XI (XI (XI (XI (XO XH))))))) :: []), ((ASetState
     DcsIntermediate) :: (ACollect :: []))) :: ((((((St CsiEntry), (Npos (XO
@@ -9845,6 +9837,34 @@ let spec_emit p c =
   | KEscDispatch -> esc_spec p.inter c
   | KCsiDispatch -> csi_spec p.params p.cur_param p.inter c
   | _ -> None
+
+(** val spec_feed : parser0 -> n -> parser0 * func option **)
+
+let spec_feed p c =
+  let t = williams p.pst c in
+  let p1 =
+    if t.t_clear
+    then clear p
+    else (match t.t_kind with
+          | KCollect -> collect p c
+          | KParam -> param_step p c
+          | _ -> p)
+  in
+  ((set (fun p0 -> p0.pst) (fun f ->
+     let p0 = fun r -> f r.pst in
+     (fun x -> { pst = (p0 x); params = x.params; cur_param = x.cur_param;
+     inter = x.inter })) (fun _ -> t.t_next) p1), (spec_emit p c))
+
+(** val spec_run : parser0 -> n list -> parser0 * func list **)
+
+let rec spec_run p = function
+| [] -> (p, [])
+| c :: r ->
+  let (p1, f) = spec_feed p c in
+  let (p2, fs) = spec_run p1 r in
+  (p2, (match f with
+        | Some x -> x :: fs
+        | None -> fs))
 
 (** val holds_C08 : vt -> func -> vt -> bool **)
 
